@@ -70,6 +70,13 @@ func parseJSONMultiPoint(keys *parseKeys, opts *ParseOptions) (Object, error) {
 	if err := parseBBoxAndExtras(&g.extra, keys, opts); err != nil {
 		return nil, err
 	}
+	if opts.RequireValid {
+		for _, p := range g.children {
+			if !p.Valid() {
+				return nil, errCoordinatesInvalid
+			}
+		}
+	}
 	g.parseInitRectIndex(opts)
 	return &g, nil
 }
